@@ -86,7 +86,7 @@ Print Assumptions C09_storage_order.
     (or after a reset) raises MissingFitError; otherwise it returns None while fewer than
     window_size values have been accepted since the last reset, and afterwards exactly the
     unbiased estimate between the reference in force and the last window_size values
-    (although reset does not clear the ring and the ring is read in storage order). *)
+    (the ring is read in storage order; reset clears it). *)
 Theorem C09_streaming : forall (k : pt RealA -> pt RealA -> R), (forall x, k x x = 1%R) ->
   forall (chunk : option Z) (w : Z), (2 <= w)%Z -> chunk_ok chunk ->
   forall (sh : shape) (h : list (sev RealA)), Forall (ev_good sh) h ->
@@ -109,6 +109,30 @@ Theorem C09_streaming_simple : forall (k : pt RealA -> pt RealA -> R), (forall x
         (seq 1 (length vs)).
 Proof. exact mmd_streaming_simple. Qed.
 Print Assumptions C09_streaming_simple.
+
+(** reset = new instance, exactly.  In EVERY number system (binary64 included), for every
+    kernel, every chunk_size and window_size the constructor accepts, and ANY histories [pre],
+    [post] (no shape hypothesis; exceptions allowed): the answers to [post] after
+    [pre; reset] are the answers a newly constructed detector gives to [post] — same values
+    bit for bit, same exceptions.  True of the repaired reset (which clears the ring); with the
+    unrepaired one the ring position survived reset and the window reached the batch
+    detector in a different storage order. *)
+Theorem C09_reset_fresh_exact : forall (A : Arith) (k : pt A -> pt A -> num A) (chunk : option Z) (w : Z)
+  (s0 : ms_st A) (pre post : list (sev A)), ms_new w chunk = Ok s0 ->
+  skipn (S (length pre)) (snd (ms_run k chunk s0 (pre ++ SReset :: post))) = snd (ms_run k chunk s0 post).
+Proof. intros A k chunk. exact (mmd_reset_fresh_exact k chunk). Qed.
+Print Assumptions C09_reset_fresh_exact.
+
+(** and the state after reset is [ms_new]'s state field by field (counter, ring, reference,
+    window size, batch reference), except the cached reference term, which is dead until the
+    next successful fit overwrites it *)
+Theorem C09_reset_state : forall (A : Arith) (k : pt A -> pt A -> num A) (chunk : option Z) (w : Z)
+  (s0 : ms_st A) (pre : list (sev A)), ms_new w chunk = Ok s0 ->
+  let s := ms_reset (fst (ms_run k chunk s0 pre)) in
+  ms_n s = ms_n s0 /\ ms_q s = ms_q s0 /\ ms_ref s = ms_ref s0 /\ ms_w s = ms_w s0 /\
+  mb_ref (ms_mmd s) = mb_ref (ms_mmd s0).
+Proof. intros A k chunk. exact (mmd_reset_state k chunk). Qed.
+Print Assumptions C09_reset_state.
 
 (** non-vacuity *)
 (** the batch hypotheses hold for a 1-D pair with a chunk_size that does not divide n
